@@ -70,6 +70,93 @@ def digest(*objs):
     return int.from_bytes(h.digest(), "little") >> 1
 
 
+# ------------------------------------------------- value-identical presentations ----
+ND_PRESENTATIONS = ["strided", "negstride", "rowstrided", "fortran", "readonly"]
+# ("f32" exists below but is not a default: float32 input is legitimately processed
+# in float32 arithmetic by several functions, so results differ at the 1e-7 level)
+OTHER_PRESENTATIONS = ["list", "pandas", "int"]
+
+
+def present(a, kind):
+    """The same values handed over differently (another memory layout, a read-only
+    buffer, another container or an exactly equivalent dtype). Returns None when the
+    presentation does not exist for this array. Gaps of strided views hold a loud
+    sentinel so that a kernel walking the wrong memory shows in its result."""
+    a = np.asarray(a)
+    if a.ndim == 0 or a.size == 0:
+        return None
+    sent = 7.7e77 if a.dtype.kind == "f" else (113 if a.dtype.kind in "iu" else None)
+    if kind == "strided":
+        big = np.empty(a.shape[:-1] + (2 * a.shape[-1],), dtype=a.dtype)
+        if sent is not None:
+            big[...] = sent
+        big[..., ::2] = a
+        return big[..., ::2]
+    if kind == "negstride":
+        return a[..., ::-1].copy()[..., ::-1]
+    if kind == "rowstrided":
+        if a.ndim != 2:
+            return None
+        big = np.empty((2 * a.shape[0],) + a.shape[1:], dtype=a.dtype)
+        if sent is not None:
+            big[...] = sent
+        big[::2] = a
+        return big[::2]
+    if kind == "fortran":
+        return np.asfortranarray(a) if a.ndim == 2 and min(a.shape) > 1 else None
+    if kind == "readonly":
+        c = np.ascontiguousarray(a.copy())
+        c.setflags(write=False)
+        return c
+    if kind == "list":
+        return a.tolist()
+    if kind == "pandas":
+        import pandas as pd
+        if a.ndim == 1:
+            return pd.Series(a.copy())
+        return pd.DataFrame(a.copy()) if a.ndim == 2 else None
+    if kind == "f32":
+        if a.dtype != np.float64:
+            return None
+        with np.errstate(all="ignore"):
+            b = a.astype(np.float32)
+            same = (b.astype(np.float64) == a) | np.isnan(a)
+        return b if bool(np.all(same)) else None
+    if kind == "int":
+        if a.dtype != np.float64 or not bool(np.all(np.isfinite(a))) or \
+                not bool(np.all(a == np.round(a))) or bool(np.any(np.abs(a) > 2 ** 52)):
+            return None
+        return a.astype(np.int64)
+    raise ValueError(kind)
+
+
+def same_result(r1, r2, rtol=0.0, atol=0.0):
+    """bitwise (NaN = NaN) or relative / absolute comparison of nested results"""
+    if isinstance(r1, (tuple, list)) and isinstance(r2, (tuple, list)):
+        return len(r1) == len(r2) and all(same_result(x, y, rtol, atol)
+                                          for x, y in zip(r1, r2))
+    try:
+        import pandas as pd
+        if isinstance(r1, (pd.Series, pd.DataFrame)):
+            r1 = r1.values
+        if isinstance(r2, (pd.Series, pd.DataFrame)):
+            r2 = r2.values
+    except Exception:
+        pass
+    try:
+        x = np.asarray(r1, dtype=float)
+        y = np.asarray(r2, dtype=float)
+    except Exception:
+        return type(r1) is type(r2)
+    if x.shape != y.shape:
+        return False
+    with np.errstate(all="ignore"):
+        ok = (x == y) | (np.isnan(x) & np.isnan(y))
+        if rtol or atol:
+            ok |= np.abs(x - y) <= rtol * np.maximum(np.abs(x), np.abs(y)) + atol
+    return bool(np.all(ok))
+
+
 class Ctx:
     MAX_DIGESTS = 400000
     MAX_PER_KEY = 3
@@ -126,6 +213,49 @@ class Ctx:
     def sample(self, obj, cap=4, maxlen=12):
         if len(self.samples) < cap:
             self.samples.append(truncate(jsonable(obj), maxlen))
+
+    def presentations(self, label, fn, arrays, base, case, rng, rtol=1e-14, n=2,
+                      kinds=None, atol=0.0):
+        """Metamorphic relation between observed executions: fn(*arrays) with some of
+        the arrays handed over in another (value-identical) presentation returns what
+        it returned for plain C-contiguous float64 arrays. ndarray presentations
+        must be accepted; other containers / dtypes may be refused with an exception
+        (counted), but a result, if given, must be the same - to 1e-14 relative, not
+        bitwise: numpy's own loops for exp / power take another code path on strided
+        data and differ in the last place."""
+        kinds = kinds or (ND_PRESENTATIONS + OTHER_PRESENTATIONS)
+        for _ in range(n):
+            kind = kinds[int(rng.integers(0, len(kinds)))]
+            which = int(rng.integers(0, len(arrays) + 1))    # one array, or all
+            args = []
+            changed = False
+            for j, a in enumerate(arrays):
+                p = present(a, kind) if which in (j, len(arrays)) else None
+                if p is None:
+                    args.append(np.array(a, copy=True))
+                else:
+                    args.append(p)
+                    changed = True
+            if not changed:
+                continue
+            self.tag("presentation:" + kind)
+            self.api(label)
+            try:
+                r = fn(*args)
+            except Exception as e:
+                if kind in ND_PRESENTATIONS:
+                    self.check("presentation.accepted", False,
+                               f"{label}|raises-on-{kind}-input", case,
+                               {"exc": repr(e)[:300], "presentation": kind,
+                                "argument": which})
+                else:
+                    self.extra[f"presentation-refused:{label}:{kind}"] += 1
+                continue
+            self.check("presentation.same-result", same_result(r, base, rtol, atol),
+                       f"{label}|result-depends-on-presentation|{kind}", case,
+                       lambda: {"presentation": kind, "argument": which,
+                                "result": jsonable(truncate(jsonable(r))),
+                                "base": jsonable(truncate(jsonable(base)))})
 
     def risky(self, case):
         """synchronously record the case about to be executed (used before calls
